@@ -248,10 +248,14 @@ func runC07(c *sim.Ctx) *sim.Violation {
 		e := ending(t.Int(3))
 		m := link.Mode{Chunk: true, Stutter: t.Bool(1, 2), Scribble: t.Bool(1, 2), DataEOF: e == endDataEOF, Biased: bias}
 		r := link.NewReader(c, streamFor(frame, e), m)
-		got := ReadOne(r)
+		rd, rtype := link.WrapReader(c, r)
+		got := ReadOne(rd)
 		sched++
 		probeSchedule(c, frame, r.Log)
-		if v := c07Compare(c, frame, want, got, r, e, "seeded"); v != nil {
+		if rtype != "link.Reader" {
+			c.Count("probe.reader-seen-as-" + rtype)
+		}
+		if v := c07Compare(c, frame, want, got, r, e, "seeded ("+rtype+")"); v != nil {
 			return v
 		}
 	}
